@@ -670,8 +670,16 @@ class IndividualParameters:
             "parameters_shape": self._parameters_shape,
         }
 
+        def numpy_scalar_to_python(obj):
+            # numpy scalar types are valid parameter values but are not JSON serializable as such
+            if isinstance(obj, np.generic):
+                return obj.item()
+            raise TypeError(
+                f"Object of type {type(obj).__name__} is not JSON serializable"
+            )
+
         # Default json.dump kwargs:
-        kwargs = {"indent": 2, **kwargs}
+        kwargs = {"indent": 2, "default": numpy_scalar_to_python, **kwargs}
 
         with open(path, "w") as f:
             json.dump(json_data, f, **kwargs)
